@@ -11,7 +11,10 @@
    returns the list of controller calls it issues, and the memory changes only through these calls.
 
    Outcomes: [Ok v] normal return, [Failed 0] = OSError (closed view / freed allocation),
-   [Failed 1] = ValueError (bad `from_what`, non-contiguous slice), [OtherError] = a view index
+   [Failed 1] = ValueError (bad `from_what`, non-contiguous slice), [Failed 2] = the exception the
+   machine controller raised during a transfer (transport fault, propagated unchanged),
+   [Failed 3] = TruncationWarning raised as an exception (warnings filter "error"),
+   [OtherError] = a view index
    that does not exist (outside the domain of the model; never produced by the harness). *)
 From Coq Require Import ZArith List Bool.
 Require Import Rig.Model.Base.
@@ -174,7 +177,16 @@ Inductive vop :=
 | Len
 | Address
 | Flush
-| Close.
+| Close
+(* the environment: the same read/write when the controller raises during the transfer (if the call
+   gets as far as a transfer), and when TruncationWarning has been turned into an exception *)
+| FaultRead (n : Z)
+| FaultWrite (bs : list Z)
+| StrictRead (n : Z)
+| StrictWrite (bs : list Z)
+(* `with view:` -- __enter__ returns self (no guard); __exit__ calls close() whatever the exception *)
+| Enter
+| Exit.
 
 Inductive op :=
 | OView (i : nat) (o : vop)          (* a method of the i-th view created (0 = the MemoryIO) *)
@@ -182,6 +194,24 @@ Inductive op :=
 
 (* _if_not_closed: `self.closed or self._parent._freed` *)
 Definition dead (fr : bool) (v : view) : bool := v_closed v || fr.
+
+(* close(): `if not self.closed: self.flush(); self.closed = True` -- flush() is guarded *)
+Definition close_step (fr : bool) (v : view) : view * option view * output :=
+  if v_closed v then (v, None, ok VNone)
+  else if fr then (v, None, err 0)
+  else (set_closed v, None, ok VNone).
+
+(* the controller raises during the transfer: the exception propagates out of read()/write() before
+   `self._offset += ...`; warnings given before the transfer have been given *)
+Definition faulted (v : view) (r : view * output) : view * option view * output :=
+  match o_calls (snd r) with
+  | [] => (fst r, None, snd r)
+  | _ :: _ => (v, None, mkOut (Failed 2) (o_warns (snd r)) [])
+  end.
+
+(* TruncationWarning is an error: the first warnings.warn raises, before anything else happens *)
+Definition strict (v : view) (r : view * output) : view * option view * output :=
+  if 0 <? o_warns (snd r) then (v, None, mkOut (Failed 3) 0 []) else (fst r, None, snd r).
 
 (* one method call on view v: the view afterwards, the view created (if any), what the caller sees.
    __len__ and close carry no guard decorator in the code; __getitem__ checks the guard first, then
@@ -194,10 +224,13 @@ Definition vstep (fr : bool) (m : mem) (v : view) (o : vop) : view * option view
       else if contiguous step
       then let w := slice_view v a b in (v, Some w, ok (VView (v_start w) (v_end w)))
       else (v, None, err 1)
-  | Close =>
-      if v_closed v then (v, None, ok VNone)
-      else if fr then (v, None, err 0)              (* close() calls flush(), which is guarded *)
-      else (set_closed v, None, ok VNone)
+  | Close => close_step fr v
+  | Exit => close_step fr v
+  | Enter => (v, None, ok VNone)
+  | FaultRead n => if dead fr v then (v, None, err 0) else faulted v (read m v n)
+  | FaultWrite bs => if dead fr v then (v, None, err 0) else faulted v (write v bs)
+  | StrictRead n => if dead fr v then (v, None, err 0) else strict v (read m v n)
+  | StrictWrite bs => if dead fr v then (v, None, err 0) else strict v (write v bs)
   | Seek n wh => if dead fr v then (v, None, err 0) else let '(v', r) := seek v n wh in (v', None, r)
   | Read n => if dead fr v then (v, None, err 0) else let '(v', r) := read m v n in (v', None, r)
   | Write bs => if dead fr v then (v, None, err 0) else let '(v', r) := write v bs in (v', None, r)
@@ -287,13 +320,22 @@ Definition probe (st : state) (o : op) : option Z :=
   | OFree => None
   end.
 
-Fixpoint observe (st : state) (ops : list op) : list (result value * Z * list call * option Z) * state :=
+(* the access a faulted operation was attempting when the controller raised *)
+Definition attempted (st : state) (o : op) (out : output) : list call :=
+  match o_res out, o with
+  | Failed 2, OView i (FaultRead n) => o_calls (snd (step st (OView i (Read n))))
+  | Failed 2, OView i (FaultWrite bs) => o_calls (snd (step st (OView i (Write bs))))
+  | _, _ => []
+  end.
+
+Fixpoint observe (st : state) (ops : list op)
+  : list (result value * Z * list call * option Z * list call) * state :=
   match ops with
   | [] => ([], st)
   | o :: rest =>
       let '(st', out) := step st o in
       let '(l, fin) := observe st' rest in
-      ((o_res out, o_warns out, o_calls out, probe st' o) :: l, fin)
+      ((o_res out, o_warns out, o_calls out, probe st' o, attempted st o out) :: l, fin)
   end.
 
 (* whole history on MemoryIO(s, e) over the memory window [lo, lo + |bs|) holding bs (0 elsewhere):
